@@ -1,5 +1,6 @@
 import FmpRpc.Model.Text
 import FmpRpc.Model.Monitors
+import Driver.Sat
 /-
   Oracle: runs the model's executable definitions on the operations the Go
   harness ran on the implementation, one line in, one line out.
@@ -69,6 +70,10 @@ def handle (line : String) : String :=
       let ctx : Ctx := { methods := defaultMethods, pending := pend, decompress := zLookup z }
       stepsText s.length (run max ctx s)
     | _, _, _, _ => "bad-op"
+  | "rr" :: rest => Sat.rr rest
+  | "uri" :: rest => Sat.uri rest
+  | "tags" :: rest => Sat.tags rest
+  | "timer" :: rest => Sat.timer rest
   | "mon" :: max :: _ =>
     match max.toNat? with
     | some max =>
